@@ -63,7 +63,17 @@ func init() {
 	})
 }
 
+// runC20: every fourth vector-OLE case runs as two concurrent sessions in one
+// process (the Fx/Fxk cases have their own concurrent sessions).
 func runC20(cs *vrt.Case) {
+	if cs.Idx%4 == 1 {
+		cs.Twins(2, func(sub *vrt.Case, _ *vrt.Rng) { runC20One(sub) })
+		return
+	}
+	runC20One(cs)
+}
+
+func runC20One(cs *vrt.Case) {
 	r := cs.Rng
 	if cs.Idx%4 == 3 {
 		c20Fx(cs, r)
